@@ -59,6 +59,17 @@ Proof. vm_compute. reflexivity. Qed.
 Theorem probe_hex_continuation : map (probe_model [48; 120]) all_bytes = c16_probe_0xb.
 Proof. vm_compute. reflexivity. Qed.
 
+(* further families pre.b.suf (string contents, comment starts and bodies, qualified names, signs, fractions, #include) *)
+Definition probe_model2 (pre suf : bytes) (b : N) : N * list N * Z :=
+  match next_token 32 (init_state (pre ++ b :: suf)) with
+  | Ok (t, _) => (tok_code t,
+                  match t with TName s | TStr s | TInt s _ | TFloat s => s | _ => [] end,
+                  match t with TInt _ v => v | _ => 0%Z end)
+  | _ => (255, [], 0%Z)
+  end.
+Theorem probe_more : map (fun f => map (probe_model2 (fst (fst f)) (snd (fst f))) all_bytes) c16_probe_more = map snd c16_probe_more.
+Proof. vm_compute. reflexivity. Qed.
+
 (* ---------------- integer literals: exactly the regenerated range ---------------- *)
 Theorem int_literal_range : (Z.of_N two63 - 1 = c16_int_lit_max /\ - Z.of_N two63 = c16_int_lit_min)%Z.
 Proof. split; vm_compute; reflexivity. Qed.
